@@ -40,7 +40,9 @@ const (
 	eGrpc
 )
 
-var keyPool = []string{"x-a", "X-B", "x-c-bin", "Authorization", "Grpc-Metadata-x-d", "grpc-metadata-X-E-bin", "x-f", "Grpc-Timeout", "timeout", "Cookie", "x-g.h_i"}
+var keyPool = []string{"x-a", "X-B", "x-c-bin", "Authorization", "Grpc-Metadata-x-d", "grpc-metadata-X-E-bin", "x-f", "Grpc-Timeout", "timeout", "Cookie", "x-g.h_i",
+	// the same names with and without the gateway prefix: an allow-listed name must not be satisfied by its other spelling
+	"x-d", "Grpc-Metadata-x-a", "grpc-metadata-x-f", "X-E-bin", "Grpc-Metadata-Authorization"}
 var prefixPool = []string{"", "", "p-", "Grpc-Metadata-", "grpc-", "X-"}
 var respPool = []string{"x-r1", "X-R2", "set-cookie", "x-r3-bin", "x-internal", "x-a"}
 
